@@ -1,4 +1,8 @@
 pub mod httpparse;
 pub mod infra;
 pub mod props;
+pub mod judge;
+pub mod l1;
+pub mod refmodel;
 pub mod report;
+pub mod runner;
